@@ -71,6 +71,12 @@ def transfer(src, dest, roots):
     return dest.put_records(json.loads(x) for x in lines), ids
 
 
+def sync(src, dest, roots=None):
+    """redun push / pull: the client's own _sync_records (without ids: every execution of the source)"""
+    from redun.cli import RedunClient
+    return RedunClient()._sync_records(src, dest, roots)
+
+
 # ---- independent reference: rows owned by a set of roots (spec of the property: executions, jobs, call nodes with arguments and child edges,
 #      values with file and task details and subvalue links, tags with their whole edit history)
 def owned(sess, roots):
@@ -242,13 +248,13 @@ try:
         # ---- incremental transfer after tag edits in the source: an update and two deletions
         n += 1
         dest = new_scheduler().backend
-        transfer(src, dest, ex)
+        sync(src, dest)
         value_hash = src.session.query(Value).join(Tag, Tag.entity_id == Value.value_hash).first().value_hash
         src.update_tags(TagEntity.Execution, ex[0], ["project"], [("project", "skunk")])
         src.delete_tags(ex[0], [("stage", "draft")])
         src.delete_tags(value_hash, [("release", "final")])
-        transfer(src, dest, ex)
-        w = compare(src, dest, ex, "history 'tags', second transfer after the source updated one tag and deleted two")
+        sync(src, dest)
+        w = compare(src, dest, ex, "history 'tags', second push (RedunClient._sync_records without ids) after the source updated one tag and deleted two")
         if w is None and dict(dest.get_tags([ex[0], value_hash])) != dict(src.get_tags([ex[0], value_hash])):
             w = dict(scenario="history 'tags', incremental transfer", observed="current tags differ", source=repr(dict(src.get_tags([ex[0], value_hash]))), destination=repr(dict(dest.get_tags([ex[0], value_hash]))))
         if w is None:
